@@ -150,6 +150,35 @@ fn sockaddr(r: &mut Rng) -> SocketAddrV4 {
 fn node_list(r: &mut Rng, max: usize) -> Box<[Node]> {
     let n = *r.pick(&[0usize, 1, 2, 8, 20, 40]);
     let n = n.min(max);
+    // one list in three draws its addresses from a small pool (several nodes behind one IP, on public, private and
+    // loopback addresses, the same node twice, ids sharing a long prefix): a node list is a sequence, not a set
+    if r.chance(1, 3) {
+        let pool: Vec<Ipv4Addr> = (0..1 + r.below(3))
+            .map(|_| match r.below(4) {
+                0 => Ipv4Addr::new(127, 0, 0, 1),
+                1 => Ipv4Addr::new(192, 168, 1, r.byte()),
+                _ => Ipv4Addr::from(r.next() as u32),
+            })
+            .collect();
+        let base = id(r);
+        let mut out: Vec<Node> = Vec::new();
+        for k in 0..n {
+            let ip = *r.pick(&pool);
+            let port = *r.pick(&[6881u16, 6882, 1, 65535]);
+            let nid = match r.below(3) {
+                0 => base,
+                1 => {
+                    let mut b = *base.as_bytes();
+                    b[19] = b[19].wrapping_add(k as u8 + 1);
+                    b[3] ^= r.byte();
+                    Id::from(b)
+                }
+                _ => id(r),
+            };
+            out.push(Node::new(nid, SocketAddrV4::new(ip, port)));
+        }
+        return out.into();
+    }
     (0..n).map(|_| Node::new(id(r), sockaddr(r))).collect::<Vec<_>>().into()
 }
 fn onode_list(r: &mut Rng) -> Option<Box<[Node]>> {
